@@ -29,6 +29,7 @@ if TYPE_CHECKING:
 logger = logging.getLogger(__name__)
 
 LITERAL_CRYPT = LIT("Crypt")
+LITERAL_XREF = LIT("XRef")
 
 # Abbreviation of Filter names in PDF 4.8.6. "Inline Images"
 LITERALS_FLATE_DECODE = (LIT("FlateDecode"), LIT("Fl"))
@@ -314,8 +315,8 @@ class PDFStream(PDFObject):
             (self.data, self.rawdata),
         )
         data = self.rawdata
-        if self.decipher:
-            # Handle encryption
+        if self.decipher and self.attrs.get("Type") is not LITERAL_XREF:
+            # Handle encryption (cross-reference streams are never encrypted)
             assert self.objid is not None
             assert self.genno is not None
             data = self.decipher(self.objid, self.genno, data, self.attrs)
